@@ -1,4 +1,4 @@
-// @unit id=v_go_away props=C15,C08 tier=quick
+// @unit id=v_go_away props=C15,C12,C08 tier=quick
 // Verus contracts on the real bodies of src/proto/go_away.rs (extracted on every run) and the monotonicity
 // lemma for C15: the last-stream-id of the GOAWAY frames an endpoint queues never increases.
 use vstd::prelude::*;
@@ -48,6 +48,32 @@ pub struct GoAway {
     pub going_away: Option<GoingAway>,
     pub is_user_initiated: bool,
     pub pending: Option<frame::GoAway>,
+}
+
+pub enum Poll<T> { Ready(T), Pending }
+impl<T> Poll<T> {
+    pub fn is_ready(&self) -> (r: bool) ensures r == (self is Ready) { match self { Poll::Ready(_) => true, Poll::Pending => false } }
+}
+pub struct Context { pub tag: u8 }
+
+/// Codec, write side, as send_pending_go_away sees it (ASSUMED; its own contracts: kani/codec__framed_write.rs,
+/// kani/proto__go_away.rs): `poll_ready` answers from the transport state; `buffer` may only be called after Ready(Ok)
+/// (FramedWrite::buffer asserts has_capacity: C08) and appends the frame to the wire order
+pub struct Codec { pub sent: Ghost<Seq<frame::GoAway>> }
+impl Codec {
+    pub uninterp spec fn next_ready(self) -> Poll<Result<(), u8>>;
+    pub uninterp spec fn has_room(self) -> bool;
+
+    #[verifier::external_body]
+    pub fn poll_ready(&mut self, cx: &mut Context) -> (r: Poll<Result<(), u8>>)
+        ensures r == old(self).next_ready(), final(self).sent@ == old(self).sent@, (r matches Poll::Ready(Ok(_))) ==> final(self).has_room(),
+    { unimplemented!() }
+
+    #[verifier::external_body]
+    pub fn buffer(&mut self, item: frame::GoAway) -> (r: Result<(), u8>)
+        requires old(self).has_room(),
+        ensures r is Ok, final(self).sent@ == old(self).sent@.push(item),
+    { unimplemented!() }
 }
 
 impl GoAway {
@@ -107,6 +133,32 @@ impl GoAway {
     //@extract src/proto/go_away.rs GoAway::is_user_initiated
     //@ret r
     //@spec     ensures r == self.is_user_initiated,
+    //@end
+
+    // C15 / C12: the queued GOAWAY is written exactly once — under write back-pressure it stays queued (nothing is lost,
+    // nothing is written twice) — and the caller learns its code; once nothing is queued and an immediate close was asked
+    // for, the recorded code is reported again so that the connection closes with it.
+    // Listed substitutions: generics dropped; `?` on Poll<io::Result<()>> written out; `.expect` => assert(is_ok);
+    // the one-line closure `self.going_away().map(|going_away| going_away.reason)` written out as a match.
+    //@extract src/proto/go_away.rs GoAway::send_pending_go_away
+    //@subst_re pub fn send_pending_go_away<T, B>\(\s*&mut self,\s*cx: &mut Context,\s*dst: &mut Codec<T, B>,\s*\) -> Poll<Option<io::Result<Reason>>>\s*where\s*T: AsyncWrite \+ Unpin,\s*B: Buf,=>pub fn send_pending_go_away(&mut self, cx: &mut Context, dst: &mut Codec) -> Poll<Option<Result<Reason, u8>>>
+    //@subst if !dst.poll_ready(cx)?.is_ready() {=>let _pr = dst.poll_ready(cx); if let Poll::Ready(Err(e)) = _pr { return Poll::Ready(Some(Err(e))); } if !_pr.is_ready() {
+    //@subst dst.buffer(frame.into()).expect("invalid GOAWAY frame");=>let _b = dst.buffer(frame); assert(_b.is_ok());
+    //@subst_re return match self\.going_away\(\)\.map\(\|going_away\| going_away\.reason\) \{\s*Some\(reason\) => Poll::Ready\(Some\(Ok\(reason\)\)\),\s*None => Poll::Ready\(None\),\s*\}; ==>> return match &self.going_away { Some(going_away) => Poll::Ready(Some(Ok(going_away.reason))), None => Poll::Ready(None) };
+    //@ret r
+    //@spec     ensures
+    //@spec         old(self).pending matches Some(f) ==> (match old(dst).next_ready() {
+    //@spec             // back-pressure: the frame stays queued, nothing is written
+    //@spec             Poll::Pending => r is Pending && final(self).pending == old(self).pending && final(dst).sent@ == old(dst).sent@,
+    //@spec             Poll::Ready(Err(e)) => r == Poll::<Option<Result<Reason, u8>>>::Ready(Some(Err(e))) && final(dst).sent@ == old(dst).sent@,
+    //@spec             // written exactly once, unmodified; its code is reported
+    //@spec             Poll::Ready(Ok(_)) => r == Poll::<Option<Result<Reason, u8>>>::Ready(Some(Ok(f.error_code))) && final(self).pending is None && final(dst).sent@ == old(dst).sent@.push(f),
+    //@spec         }),
+    //@spec         // nothing queued: nothing is written
+    //@spec         old(self).pending is None ==> final(dst).sent@ == old(dst).sent@ && final(self).pending is None
+    //@spec             && (r == (if old(self).close_now && old(self).going_away is Some { Poll::<Option<Result<Reason, u8>>>::Ready(Some(Ok(old(self).going_away->Some_0.reason))) } else { Poll::<Option<Result<Reason, u8>>>::Ready(None) })),
+    //@spec         final(self).close_now == old(self).close_now && final(self).is_user_initiated == old(self).is_user_initiated
+    //@spec             && (final(self).going_away is Some) == (old(self).going_away is Some),
     //@end
 
     //@extract src/proto/go_away.rs GoAway::should_close_now
